@@ -69,3 +69,42 @@ Example graft_empty_refuted :
   | _ => False
   end.
 Proof. vm_compute. reflexivity. Qed.
+
+(* ---------- second round: the full alphabet ---------- *)
+From VV Require Import C16.GraftSpec C16.ProofsM C16.History2 C16.Trans.
+
+(* registers: 0 outer, 1 empty graph (key 3), 2 = {6 -> 8} (key 5); A=0 -> {} -> B=2, 4 -> {6->8} -> 2;
+   merge, +, invert, graft of the empty and of the non-empty nested graph *)
+Definition h2 : list fop :=
+  [FNew; FNew; FNew; FAddDep 2 6 8; FAddDep 0 0 3; FAddDep 0 3 2; FAddDep 0 4 5; FAddDep 0 5 2;
+   FCopy 0; FGraft 0 3; FGraft 0 5; FInvert 0; FMerge 1 2; FPlus 3 2; FGraft 3 7; FRemoveNode 0 6].
+
+Example nv_history_full :
+  map g_abs (wrunf [] h2)
+  = [Ok ([0; 4; 2; 8], [(0, 2); (8, 2)]); Ok ([6; 8], [(6, 8)]); Ok ([6; 8], [(6, 8)]);
+     Ok ([0; 3; 2; 4; 5], [(0, 3); (3, 2); (4, 5); (5, 2)]);
+     Ok ([0; 4; 2; 6; 8], [(2, 0); (2, 8); (6, 4); (8, 6)]);
+     Ok ([0; 3; 2; 4; 5; 6; 8], [(0, 3); (3, 2); (4, 5); (5, 2); (6, 8)])]
+  /\ arunf [] h2
+  = [([2; 4; 2; 0; 8], [(0, 2); (8, 2)]); ([6; 8], [(6, 8)]); ([6; 8], [(6, 8)]);
+     ([5; 2; 4; 5; 3; 2; 0; 3], [(5, 2); (4, 5); (3, 2); (0, 3)]);
+     ([2; 4; 2; 0; 6; 8], [(2, 0); (8, 6); (2, 8); (6, 4)]);
+     ([5; 2; 4; 5; 3; 2; 0; 3; 6; 8], [(5, 2); (4, 5); (3, 2); (0, 3); (6, 8)])].
+Proof. split; vm_compute; reflexivity. Qed.
+
+(* the hypotheses of closure_correct / reduction_correct are met by a reachable graph with a
+   redundant edge: 0 -> 2 -> 4 and 0 -> 4 *)
+Definition g3 : cgraph :=
+  nth 0 (wrunf [] [FNew; FAddDep 0 0 2; FAddDep 0 2 4; FAddDep 0 0 4; FAddDep 0 6 0]) g_empty.
+
+Example nv_trans : g_ok g3 /\ acyclic g3 /\
+  (do g' <- transitive_reduction g3; g_abs g') = Ok ([0; 2; 4; 6], [(0, 2); (2, 4); (6, 0)]) /\
+  (do g' <- transitive_closure g3; g_abs g')
+  = Ok ([0; 2; 4; 6], [(0, 2); (0, 4); (2, 4); (6, 0); (6, 2); (6, 4)]).
+Proof.
+  assert (OK : g_ok g3).
+  { destruct (edit_history_refines [FNew; FAddDep 0 0 2; FAddDep 0 2 4; FAddDep 0 0 4; FAddDep 0 6 0]
+                0 g3 eq_refl) as (a & _ & OK & _). exact OK. }
+  split; [exact OK|]. split; [|split; vm_compute; reflexivity].
+  eapply (toposort_sound g3 _ OK). vm_compute. reflexivity.
+Qed.
